@@ -82,8 +82,28 @@ pub trait PostConversionLinter {
         Ok(())
     }
 
-    fn visit_dim(&mut self, _dim_list: &DimList) -> Result<(), LintErrorPos> {
-        Ok(())
+    fn visit_dim(&mut self, dim_list: &DimList) -> Result<(), LintErrorPos> {
+        // the array dimensions of DIM / REDIM are expressions too
+        dim_list
+            .variables
+            .iter()
+            .try_for_each(|dim_var_pos| self.visit_dim_type(dim_var_pos.element.var_type()))
+    }
+
+    fn visit_dim_type(&mut self, dim_type: &DimType) -> Result<(), LintErrorPos> {
+        match dim_type {
+            DimType::Array(array_dimensions, element_type) => {
+                for array_dimension in array_dimensions.iter() {
+                    if let Some(lbound) = &array_dimension.lbound {
+                        self.visit_expression(lbound)?;
+                    }
+                    self.visit_expression(&array_dimension.ubound)?;
+                }
+                self.visit_dim_type(element_type)
+            }
+            DimType::FixedLengthString(len_expr, _) => self.visit_expression(len_expr),
+            _ => Ok(()),
+        }
     }
 
     fn visit_on_error(
@@ -155,9 +175,11 @@ pub trait PostConversionLinter {
     fn visit_assignment(
         &mut self,
         assignment: &Assignment,
-        _name_pos: Position,
+        name_pos: Position,
     ) -> Result<(), LintErrorPos> {
-        let (_, v) = assignment.into();
+        let (name, v) = assignment.into();
+        // the target can hold expressions too (array subscripts)
+        self.visit_expression(&name.clone().at_pos(name_pos))?;
         self.visit_expression(v)
     }
 
